@@ -135,6 +135,43 @@ func (c Cfg) key() string {
 	return c.Kind
 }
 
+func (c Cfg) allChars() [][]int {
+	out := [][]int{c.Content, c.Prompt, c.RPrompt, c.Buffer}
+	out = append(out, c.Lines...)
+	out = append(out, c.Items...)
+	out = append(out, c.Tips...)
+	if c.Pending != nil {
+		out = append(out, c.Pending.Content)
+	}
+	for _, cc := range c.Cols {
+		out = append(out, cc.allChars()...)
+	}
+	return out
+}
+
+// feature names the structural class of a configuration that enters the key of a rejected render
+// (labels only; never a verdict): content with control characters that a buffer shows in caret
+// notation; a vertical list with multi-line items.
+func (c Cfg) feature() string {
+	for _, cs := range c.allChars() {
+		for _, ch := range cs {
+			if r := chId(ch); (r < 0x20 && r != '\n') || r == 0x7f {
+				return ":control-chars"
+			}
+		}
+	}
+	if (c.Kind == "listbox" || c.Kind == "combobox") && !c.Horizontal {
+		for _, it := range c.Items {
+			for _, ch := range it {
+				if chId(ch) == '\n' {
+					return ":multiline-items"
+				}
+			}
+		}
+	}
+	return ""
+}
+
 type listItems []ui.Text
 
 func (it listItems) Show(i int) ui.Text { return it[i] }
@@ -264,9 +301,9 @@ func codeAreaSpec(c Cfg, rng *rand.Rand) (tk.CodeAreaSpec, error) {
 // ---- projection of a rendered buffer
 
 type Render struct {
-	W     int     `json:"W"`
-	H     int     `json:"H"`
-	Lines [][]int `json:"lines"`
+	W     int   `json:"W"`
+	H     int   `json:"H"`
+	Lines []int `json:"lines"` // display width of every rendered line
 }
 
 // cellWidth is the number of columns a cell takes: the sum of its runes' table widths (a control
@@ -274,16 +311,16 @@ type Render struct {
 func cellWidth(c term.Cell) int { return wcwidth.Of(c.Text) }
 
 func projectBuffer(b *term.Buffer, w, h int) Render {
-	r := Render{W: w, H: h, Lines: [][]int{}}
+	r := Render{W: w, H: h, Lines: []int{}}
 	if b == nil {
 		return r
 	}
 	for _, l := range b.Lines {
-		ws := []int{}
+		lw := 0
 		for _, cell := range l {
-			ws = append(ws, cellWidth(cell))
+			lw += cellWidth(cell)
 		}
-		r.Lines = append(r.Lines, ws)
+		r.Lines = append(r.Lines, lw)
 	}
 	return r
 }
